@@ -66,13 +66,13 @@ ASSUMPTIONS = [
     "for a row request extract_blocks(a, i) of a bilinear form either a sequence of blocks or one form for the whole row is accepted",
     "generated integrands are additive in each argument (sums of products coefficient * linear(test) [* linear(trial)])",
 ]
-BUDGET = {"quick": 60, "thorough": 420}
-NCASES = {"quick": 2000, "thorough": 20000}
-CASE_TIMEOUT = 60.0
+BUDGET = {"quick": 45, "thorough": 400}
+NCASES = {"quick": 1800, "thorough": 16000}
+CASE_TIMEOUT = 30.0
 EVAL_COUNTER = "blocks_checked"
 FLOORS = {
-    "quick": {"case_held": 120, "blocks_held": 400, "zero_blocks_held": 100, "sum_held": 120, "args_checked": 300},
-    "thorough": {"case_held": 1800, "blocks_held": 6000, "zero_blocks_held": 1500, "sum_held": 1800, "args_checked": 4500},
+    "quick": {"case_held": 450, "blocks_held": 1250, "zero_blocks_held": 1250, "sum_held": 450, "args_checked": 1250},
+    "thorough": {"case_held": 4500, "blocks_held": 12500, "zero_blocks_held": 12500, "sum_held": 4500, "args_checked": 12500},
 }
 _COVER = {
     "flavours_held": ["element", "mfs"],
@@ -590,6 +590,9 @@ def case(ctx, i, rng):
             vs.append(oracle.compare_once(fin2, fout, wsets[2]))
         run.size = max(seen)
         count_verdicts(ctx, vs)
+        for x in vs:
+            if x.kind in ("inconclusive", "skipped", "input-structure", "input-ambiguous") and x.why:
+                ctx.covered("undecided_samples_why", label + ": " + x.kind + ": " + str(x.why)[:90])
         kinds = [v.kind for v in vs]
         if any(k in ("input-structure", "input-ambiguous") for k in kinds):
             return "skipped", vs
